@@ -40,7 +40,7 @@ def Outcome.isOk : Outcome → Bool
 mutual
 def T.pm : T → PM.Tree
   | .leaf tick _ => .leaf tick
-  | .node sp st et _ res kids => .node sp.atype st et (Outcome.isOk res) (F.pm kids)
+  | .node sp st et _ res _ kids => .node sp.atype st et (Outcome.isOk res) (F.pm kids)
 def F.pm : F → PM.Forest
   | .nil => .nil
   | .own t r => .cons (T.pm t) (F.pm r)
@@ -51,7 +51,7 @@ mutual
 /-- the separate trees below, in completion order (a task started inside completes first) -/
 def T.seps : T → List (Nat × T)
   | .leaf .. => []
-  | .node _ _ _ _ _ kids => F.seps kids
+  | .node _ _ _ _ _ _ kids => F.seps kids
 def F.seps : F → List (Nat × T)
   | .nil => []
   | .own t r => T.seps t ++ F.seps r
@@ -62,7 +62,7 @@ mutual
 /-- the message ids in emission order -/
 def T.ticks : T → List Nat
   | .leaf tick _ => [tick]
-  | .node _ st et _ _ kids => st :: (F.ticks kids ++ [et])
+  | .node _ st et _ _ _ kids => st :: (F.ticks kids ++ [et])
 def F.ticks : F → List Nat
   | .nil => []
   | .own t r => T.ticks t ++ F.ticks r
@@ -82,7 +82,7 @@ mutual
 `action_type` / `action_status`; every action ended -/
 def T.clean : T → Bool
   | .leaf _ ms => sersClean ms.sers && (ms.fields.get? "action_type").isNone && (ms.fields.get? "action_status").isNone
-  | .node sp _ _ _ res kids =>
+  | .node sp _ _ _ res _ kids =>
     sersClean (sp.sers.map (·.1)) && sersClean (sp.sers.map (·.2)) && (match res with | .stuck => false | _ => true) &&
       F.clean kids
 def F.clean : F → Bool
@@ -171,15 +171,15 @@ theorem toPMsg_start (σ : Nat → FV → FV) (u : Nat) (L : Level) (tick : Nat)
   simp only [startDict, toPMsg_chain5 σ _ hs, PM.startMsg]
 
 theorem toPMsg_end (env : Env) (σ : Nat → FV → FV) (u : Nat) (L : Level) (n tick : Nat) (atype : String)
-    (sers : Option (List (String × Nat) × List (String × Nat))) (succ : Fields) (res : Outcome)
+    (sers : Option (List (String × Nat) × List (String × Nat))) (succ xf : Fields) (res : Outcome)
     (hs : sersClean (sers.map (·.2)) = true) (hr : res ≠ .stuck) :
-    toPMsg (endDict env σ u (L ++ [n]) tick atype sers succ res) =
+    toPMsg (endDict env σ u (L ++ [n]) tick atype sers succ xf res) =
       some (PM.endMsg (ustr u) L atype tick (Outcome.isOk res) n) := by
   cases res with
   | stuck => exact absurd rfl hr
   | ok => simp only [endDict, toPMsg_chain5 σ _ hs, PM.endMsg, Outcome.isOk, if_true]
   | raised e =>
-    have := toPMsg_chain5 σ none rfl (Fields.set (Fields.set [] "exception" (.str (e.qual env))) "reason" (.str (e.safeStr env)))
+    have := toPMsg_chain5 σ none rfl (Fields.set (Fields.set xf "exception" (.str (e.qual env))) "reason" (.str (e.safeStr env)))
       "failed" atype u (L ++ [n]) tick
     simp only [serOpt] at this
     simp only [endDict, this, PM.endMsg, Outcome.isOk, Bool.false_eq_true, if_false]
@@ -228,12 +228,12 @@ theorem T.proj (env : Env) (σ : Nat → FV → FV) (u : Nat) (t : T) (L : Level
   | leaf tick ms =>
     have := Proj.single (toPMsg_leaf σ u L tick ms hc)
     simpa [T.dicts, T.ticks, T.pm, PM.Tree.msgs, T.seps, sepMsgs, PM.leafMsg] using this
-  | node sp st et succ res kids =>
+  | node sp st et succ res xf kids =>
     simp only [T.clean, Bool.and_eq_true] at hc
     obtain ⟨⟨⟨h1, h2⟩, h3⟩, h4⟩ := hc
     have hr : res ≠ .stuck := by intro h; subst h; simp at h3
     have ps := Proj.single (toPMsg_start σ u L st sp h1)
-    have pe := Proj.single (toPMsg_end env σ u L (kids.len + 2) et sp.atype sp.sers succ res h2 hr)
+    have pe := Proj.single (toPMsg_end env σ u L (kids.len + 2) et sp.atype sp.sers succ xf res h2 hr)
     have pk := F.proj env σ u kids L 2 h4
     have := ps.append (pk.append pe (List.Perm.refl _)) (List.Perm.refl _)
     refine ⟨?_⟩
@@ -328,16 +328,21 @@ theorem Range.leaf (sepr : Bool) (d : DS) (s : Fields) (ms : MSpec) : Range d (l
   · refine ⟨by simp [leafR], by simp [leafR], ?_, by simp [leafR, F.seps, T.seps], by simp [leafR, F.seps, T.seps]⟩
     simp [leafR, F.ticks, T.ticks]
 
+/-- only the clock and uuid counters matter -/
+theorem Range.congr {d d' : DS} {r : R} (h : Range d' r) (ht : d'.tick = d.tick) (hn : d'.nu = d.nu) : Range d r :=
+  ⟨ht ▸ h.tickLe, hn ▸ h.nuLe, ht ▸ h.ticks, hn ▸ h.uu, h.uun⟩
+
 mutual
 theorem denS_range (env : Env) (cur : Option Exc) (inAct : Bool) (st : Stmt) (d : DS) (s : Fields) :
     Range d (denS env cur inAct st d s) := by
   cases st with
   | withAction task sp body =>
     rw [denS_with]
+    simp only [withR]
     cases hb : (task || !inAct) with
     | false =>
       simp only [Bool.false_eq_true, if_false]
-      have ih := denB_range env cur true body { tick := d.tick + 1, nu := d.nu } []
+      have ih := denB_range env cur true body { tick := d.tick + 1, nu := d.nu, ex := d.ex } []
       have h1 := ih.tickLe; have h2 := ih.nuLe
       simp only at h1 h2
       refine ⟨by simp only; omega, by simp only; omega, ?_, ?_, ?_⟩
@@ -351,7 +356,7 @@ theorem denS_range (env : Env) (cur : Option Exc) (inAct : Bool) (st : Stmt) (d 
       · simpa [F.seps, T.seps] using ih.uun
     | true =>
       simp only [if_true]
-      have ih := denB_range env cur true body { tick := d.tick + 1, nu := d.nu + 1 } []
+      have ih := denB_range env cur true body { tick := d.tick + 1, nu := d.nu + 1, ex := d.ex } []
       have h1 := ih.tickLe; have h2 := ih.nuLe
       simp only at h1 h2
       refine ⟨by simp only; omega, by simp only; omega, ?_, ?_, ?_⟩
@@ -384,7 +389,7 @@ theorem denS_range (env : Env) (cur : Option Exc) (inAct : Bool) (st : Stmt) (d 
   | writeTraceback =>
     cases cur with
     | none => simp only [denS]; exact Range.nil d _ s _
-    | some e => simp only [denS]; exact Range.leaf _ d s _
+    | some e => simp only [denS, tbR]; exact (Range.leaf _ _ s _).congr rfl rfl
   | addSuccess x fs =>
     cases x with
     | none => simp only [denS]; exact Range.nil d _ _ _
@@ -578,18 +583,20 @@ theorem startDict_fields (σ : Nat → FV → FV) (u : Nat) (L : Level) (tick : 
 
 /-- **Fields of a successful end message**: the success fields added, typed ones serialized. -/
 theorem endDict_fields_ok (env : Env) (σ : Nat → FV → FV) (u : Nat) (L : Level) (tick : Nat) (atype : String)
-    (sers : Option (List (String × Nat) × List (String × Nat))) (succ : Fields)
+    (sers : Option (List (String × Nat) × List (String × Nat))) (succ xf : Fields)
     (hs : sersAvoid (sers.map (·.2)) actionKeys) (k : String) (hk : k ∉ actionKeys) :
-    (endDict env σ u L tick atype sers succ .ok).get? k = (serOpt σ (sers.map (·.2)) succ).get? k :=
+    (endDict env σ u L tick atype sers succ xf .ok).get? k = (serOpt σ (sers.map (·.2)) succ).get? k :=
   chain5_fields σ _ hs _ _ _ _ _ _ k hk
 
-/-- **Fields of a failed end message**: the exception's class and text and nothing else — in
-particular no success field. -/
+/-- **Fields of a failed end message**: the exception's class and text — eliot's own `exception` /
+`reason` win over extracted fields of the same name —, under every other non-structural key exactly
+what the extractor returned (`xf`; nothing if none is registered), and no success field. -/
 theorem endDict_fields_failed (env : Env) (σ : Nat → FV → FV) (u : Nat) (L : Level) (tick : Nat) (atype : String)
-    (sers : Option (List (String × Nat) × List (String × Nat))) (succ : Fields) (e : Exc) :
-    (endDict env σ u L tick atype sers succ (.raised e)).get? "exception" = some (.str (e.qual env)) ∧
-    (endDict env σ u L tick atype sers succ (.raised e)).get? "reason" = some (.str (e.safeStr env)) ∧
-    ∀ k, k ∉ actionKeys → k ≠ "exception" → k ≠ "reason" → (endDict env σ u L tick atype sers succ (.raised e)).get? k = none := by
+    (sers : Option (List (String × Nat) × List (String × Nat))) (succ xf : Fields) (e : Exc) :
+    (endDict env σ u L tick atype sers succ xf (.raised e)).get? "exception" = some (.str (e.qual env)) ∧
+    (endDict env σ u L tick atype sers succ xf (.raised e)).get? "reason" = some (.str (e.safeStr env)) ∧
+    ∀ k, k ∉ actionKeys → k ≠ "exception" → k ≠ "reason" →
+      (endDict env σ u L tick atype sers succ xf (.raised e)).get? k = xf.get? k := by
   refine ⟨?_, ?_, ?_⟩
   · simp only [endDict]
     rw [Fields.get?_set_ne _ _ _ _ (by decide), Fields.get?_set_ne _ _ _ _ (by decide), Fields.get?_set_ne _ _ _ _ (by decide),
@@ -604,6 +611,67 @@ theorem endDict_fields_failed (env : Env) (σ : Nat → FV → FV) (u : Nat) (L 
     rw [Fields.get?_set_ne _ _ _ _ hk.2.2.2.2, Fields.get?_set_ne _ _ _ _ hk.2.2.2.1, Fields.get?_set_ne _ _ _ _ hk.2.2.1,
       Fields.get?_set_ne _ _ _ _ hk.2.1, Fields.get?_set_ne _ _ _ _ hk.1, Fields.get?_set_ne _ _ _ _ h2,
       Fields.get?_set_ne _ _ _ _ h1]
-    rfl
+
+/-- `d.update(e)` read key by key: the last binding of `k` in `e` wins, else what `d` held -/
+theorem Fields.get?_update (d e : Fields) (k : String) :
+    (Fields.update d e).get? k = match e.reverse.find? (fun kv => kv.1 == k) with
+      | some kv => some kv.2
+      | none => d.get? k := by
+  unfold Fields.update
+  induction e generalizing d with
+  | nil => rfl
+  | cons kv r ih =>
+    rw [List.foldl_cons, ih, List.reverse_cons, List.find?_append]
+    cases hr : r.reverse.find? (fun kv => kv.1 == k) with
+    | some kv' => rfl
+    | none =>
+      by_cases hk : kv.1 = k
+      · simp [hk, Fields.get?_set_self]
+      · have : (kv.1 == k) = false := by simpa using hk
+        simp [List.find?_cons, this, Fields.get?_set_ne _ _ _ _ (Ne.symm hk)]
+
+/-- **Fields of a traceback message** (`write_traceback()` in a handler): the traceback's own
+`reason` / `traceback` / `exception` — they win over extracted fields of the same name — and under
+every other key exactly what the extractor returned for the exception (`xf`). -/
+theorem tbSpec_fields (env : Env) (e : Exc) (xf : Fields) :
+    (tbSpec env e xf).mtype = "eliot:traceback" ∧ (tbSpec env e xf).sers = none ∧
+    (tbSpec env e xf).fields.get? "reason" = some (.str (e.safeStr env)) ∧
+    (tbSpec env e xf).fields.get? "traceback" = some (.tbtext e) ∧
+    (tbSpec env e xf).fields.get? "exception" = some (.str (e.qual env)) ∧
+    ∀ k, k ≠ "reason" → k ≠ "traceback" → k ≠ "exception" → (tbSpec env e xf).fields.get? k = xf.get? k := by
+  refine ⟨rfl, rfl, ?_, ?_, ?_, ?_⟩
+  · simp [tbSpec, tracebackFields, Fields.get?_update]
+  · simp [tbSpec, tracebackFields, Fields.get?_update, List.find?_cons]
+  · simp [tbSpec, tracebackFields, Fields.get?_update, List.find?_cons]
+  · intro k h1 h2 h3
+    have a1 : ("reason" == k) = false := by simpa using Ne.symm h1
+    have a2 : ("traceback" == k) = false := by simpa using Ne.symm h2
+    have a3 : ("exception" == k) = false := by simpa using Ne.symm h3
+    simp [tbSpec, tracebackFields, Fields.get?_update, List.find?_cons, a1, a2, a3]
+
+/-- what an extractor may return without disturbing the parser: no `action_type` / `action_status`
+key (in a traceback message they would make the parser read a plain message as an action's start or
+end; in a failed end message eliot's own values are written over them anyway) -/
+def extClean (xf : Fields) : Bool := (xf.get? "action_type").isNone && (xf.get? "action_status").isNone
+
+/-- … then the traceback message of `write_traceback()` is `clean` -/
+theorem tb_clean (env : Env) (e : Exc) (xf : Fields) (tick : Nat) (h : extClean xf = true) :
+    T.clean (.leaf tick (tbSpec env e xf)) = true := by
+  simp only [extClean, Bool.and_eq_true] at h
+  have t := (tbSpec_fields env e xf).2.2.2.2.2
+  simp only [T.clean, sersClean, (tbSpec_fields env e xf).2.1, Bool.true_and, Bool.and_eq_true]
+  exact ⟨by rw [t _ (by decide) (by decide) (by decide)]; exact h.1, by rw [t _ (by decide) (by decide) (by decide)]; exact h.2⟩
+
+/-- if every registered extractor only ever returns `extClean` fields, so does `extOf` -/
+theorem extOf_clean {env : Env} (h : ∀ c f, env.extractor c = some f → ∀ e k fs, f e k = .ok fs → extClean fs = true)
+    (e : Exc) (k : Nat) : extClean (extOf env e k).1 = true := by
+  unfold extOf
+  cases hf : firstExtractor env (env.mro (e.cls env)) with
+  | none => rfl
+  | some f =>
+    obtain ⟨c, hc⟩ := firstExtractor_mem hf
+    cases hr : f e k with
+    | ok fs => simp only [hr]; exact h c f hc e k fs hr
+    | error _ => simp only [hr]; rfl
 
 end Sys.Emit
